@@ -15,5 +15,7 @@ ASSUME Cardinality(DOMAIN MCTable) = 39
 CONSTANT CompSet
 MCRemapPool == { [from |-> <<"bak">>, to |-> <<"py">>], [from |-> <<"cxx">>, to |-> <<"cpp">>], [from |-> <<"py">>, to |-> <<"rs">>],
                  [from |-> <<"bak">>, to |-> <<"nope">>], [from |-> <<"x">>, to |-> <<"PY">>], [from |-> <<"cxx">>, to |-> <<"go", "mod">>],
-                 [from |-> <<"d", "ts">>, to |-> <<"py">>] }
+                 [from |-> <<"d", "ts">>, to |-> <<"py">>],
+                 [from |-> <<"Gemfile">>, to |-> <<"py">>],       \* a whole-name key with an upper-case letter
+                 [from |-> <<"uname">>, to |-> <<"rs">>] }        \* "uname" is spelt with non-ASCII letters by the concretiser
 =============================================================================
